@@ -10,7 +10,7 @@ FEAT=$(python3 -c "import json,sys;print(json.load(open('$D/meta.json')).get('fe
 FA=""; [ -n "$FEAT" ] && FA="--features $FEAT"
 # a demo that needs the portable scanner: meta.json "rustflags" (e.g. --cfg miri); the dev-dependencies
 # then need RUSTC_BOOTSTRAP=1 on the stable toolchain; the suite itself runs with the default flags
-RF=$(python3 -c "import json,sys;print(json.load(open('$D/meta.json')).get('rustflags','') or '')" 2>/dev/null)
+RF=$(python3 -c "import json,sys;r=json.load(open('$D/meta.json')).get('rustflags','') or '';print('--cfg miri' if '--cfg miri' in r else (r if r.startswith('-') and len(r.split())<=4 else ''))" 2>/dev/null)
 demo() { if [ -n "$RF" ]; then RUSTC_BOOTSTRAP=1 RUSTFLAGS="$RF" CARGO_TARGET_DIR=target-portable "$@"; else "$@"; fi; }
 cp "$D/demo.rs" tests/seed_demo.rs
 if CARGO_NET_OFFLINE=true demo timeout 900 cargo test --offline $FA --test seed_demo >/tmp/seedconfirm.$$.log 2>&1; then echo "demo-without-patch: pass"; A=0; else echo "demo-without-patch: FAIL"; tail -5 /tmp/seedconfirm.$$.log; A=1; fi
